@@ -256,6 +256,9 @@ class MHLHistory:
 
         hash_lists = []
         for root, directories, filenames in os.walk(asc_mhl_folder_path):
+            # the manifests are the files directly in the ascmhl folder, what is in sub folders of it (e.g. a backup
+            # copy somebody made) is not part of the history
+            directories.clear()
             for filename in filenames:
                 # file name example: 0001_root_2020-01-15_130000.mhl
                 # ignore ._ variants of mhl files that can happen when moving data from macOS to Windows and back
